@@ -116,6 +116,7 @@ func (r *rapidContext) HandleInit(init *interop.Init, initSuccessResponseChan ch
 }
 
 func (r *rapidContext) HandleInvoke(invoke *interop.Invoke, sbInfoFromInit interop.SandboxInfoFromInit, requestBuffer *bytes.Buffer, responseSender interop.InvokeResponseSender) (interop.InvokeSuccess, *interop.InvokeFailure) {
+	vhook.At("invoke.beforeHandlerMutex")
 	r.handlerExecutionMutex.Lock()
 	defer r.handlerExecutionMutex.Unlock()
 	// Clear the context used by the last invoke
